@@ -73,10 +73,11 @@ type Stats struct {
 	MaxInflight int
 	OracleEvals int
 	Max         map[string]int
+	Sched       map[uint64]bool // hashes of (completion order, outcomes) of flushes with >= 2 Stores
 }
 
 func newStats() *Stats {
-	return &Stats{Faults: map[string]int{}, Probes: map[string]int{}, Max: map[string]int{}}
+	return &Stats{Faults: map[string]int{}, Probes: map[string]int{}, Max: map[string]int{}, Sched: map[uint64]bool{}}
 }
 
 // World is one simulated process: trees, versions, disks, cache, model, chooser.
@@ -1245,6 +1246,9 @@ func (w *World) schedMakeRoot(m *mast.Mast, d *SimDisk, faultPermille int, failA
 		d.Release(p, outcome)
 	}
 	d.SetScheduled(false)
+	if len(fr.order) >= 2 {
+		w.st.Sched[fnv64([]byte(strings.Join(fr.order, ",")))] = true
+	}
 	w.st.Steps += fr.steps
 	if fr.maxInflight > w.st.MaxInflight {
 		w.st.MaxInflight = fr.maxInflight
